@@ -1,44 +1,421 @@
+// c16: privileged messages take effect only when issued by the governance authority.
+//
+//	c16 gen      writes Gen_AuthorityMsgs.v: table (1) from the RUNNING app (router routes x protobuf
+//	             cosmos.msg.v1.signer option)
+//	c16          for EVERY row of table (1) (and every bridge chain where the message has a chain_name):
+//	             structure-aware payloads, authorities from variants.go, delivered
+//	               A  through the real MsgServiceRouter handler, observing the handler's context directly
+//	               T  through the real MsgServiceRouter handler inside a tx-style cache branch
+//	               B  (fx-core's own servers) directly on the message server method, without the
+//	                  router's ValidateBasic — "leaves every store unchanged" is about the handler
+//	             monitor: error returned AND every KV/transient store byte-identical; positive control
+//	             with the real governance authority; raw-store compare-and-set cases.
+//	             Writes Cases_C16.v (guard decisions vs the model's guard for the comparison kind
+//	             the translator read from the source) and Cases_C16cas.v (UpdateStore vs model).
 package main
 
 import (
+	"context"
+	"crypto/sha256"
 	"fmt"
+	"os"
+	"reflect"
 	"sort"
+	"strings"
 
+	storetypes "cosmossdk.io/store/types"
 	sdk "github.com/cosmos/cosmos-sdk/types"
-	msgv1 "cosmossdk.io/api/cosmos/msg/v1"
-	"google.golang.org/protobuf/proto"
-	"google.golang.org/protobuf/reflect/protoreflect"
-	"google.golang.org/protobuf/reflect/protoregistry"
-	"google.golang.org/protobuf/types/descriptorpb"
-	gogoproto "github.com/cosmos/gogoproto/proto"
+	"google.golang.org/grpc"
+
+	crosschainkeeper "github.com/functionx/fx-core/v8/x/crosschain/keeper"
+	crosschaintypes "github.com/functionx/fx-core/v8/x/crosschain/types"
+	erc20types "github.com/functionx/fx-core/v8/x/erc20/types"
+	fxevmtypes "github.com/functionx/fx-core/v8/x/evm/types"
+	fxgovkeeper "github.com/functionx/fx-core/v8/x/gov/keeper"
+	fxgovtypes "github.com/functionx/fx-core/v8/x/gov/types"
 
 	"fxverif/lib"
 )
 
-func main() {
-	c := lib.NewChain(1, 1, nil)
-	reg := c.App.InterfaceRegistry()
-	urls := reg.ListImplementations(sdk.MsgInterfaceProtoName)
-	sort.Strings(urls)
-	files, err := gogoproto.MergedRegistry()
-	if err != nil {
-		panic(err)
+// ---------- direct access to fx-core's message servers (level B) ----------
+
+type capture struct {
+	methods map[string]directMethod // type URL -> method
+}
+type directMethod struct {
+	srv     interface{}
+	handler func(srv interface{}, ctx context.Context, dec func(interface{}) error, interceptor grpc.UnaryServerInterceptor) (interface{}, error)
+	name    string
+}
+
+func (c *capture) RegisterService(sd *grpc.ServiceDesc, ss interface{}) {
+	for _, m := range sd.Methods {
+		m := m
+		url := ""
+		_, _ = m.Handler(nil, context.Background(), func(i interface{}) error {
+			if msg, ok := i.(sdk.Msg); ok {
+				url = sdk.MsgTypeURL(msg)
+			}
+			return nil
+		}, func(context.Context, interface{}, *grpc.UnaryServerInfo, grpc.UnaryHandler) (interface{}, error) { return nil, nil })
+		if url != "" {
+			c.methods[url] = directMethod{srv: ss, handler: m.Handler, name: sd.ServiceName + "/" + m.MethodName}
+		}
 	}
-	_ = protoregistry.GlobalFiles
-	for _, u := range urls {
-		h := c.App.MsgServiceRouter().HandlerByTypeURL(u)
-		d, err := files.FindDescriptorByName(protoreflect.FullName(u[1:]))
-		if err != nil {
-			fmt.Println(u, "NO DESCRIPTOR", err)
-			continue
+}
+
+func fxServers(c *lib.Chain) *capture {
+	cp := &capture{methods: map[string]directMethod{}}
+	crosschaintypes.RegisterMsgServer(cp, crosschainkeeper.NewMsgServerRouterImpl(c.App.CrosschainRouterKeeper))
+	erc20types.RegisterMsgServer(cp, c.App.Erc20Keeper)
+	fxevmtypes.RegisterMsgServer(cp, c.App.EvmKeeper)
+	fxgovtypes.RegisterMsgServer(cp, fxgovkeeper.NewMsgServerImpl(c.App.GovKeeper))
+	return cp
+}
+
+// ---------- state digests ----------
+
+type digest map[string][32]byte
+
+func (h *harness) digest(ctx sdk.Context) digest {
+	d := digest{}
+	for _, n := range h.kvNames {
+		d[n] = hashStore(ctx.KVStore(h.c.App.GetKey(n)))
+	}
+	for _, n := range h.tNames {
+		d["transient:"+n] = hashStore(ctx.KVStore(h.c.App.GetTKey(n)))
+	}
+	return d
+}
+
+func hashStore(st storetypes.KVStore) [32]byte {
+	hh := sha256.New()
+	it := st.Iterator(nil, nil)
+	defer it.Close()
+	var lenb [8]byte
+	for ; it.Valid(); it.Next() {
+		k, v := it.Key(), it.Value()
+		lenb[0], lenb[1], lenb[2], lenb[3] = byte(len(k)>>24), byte(len(k)>>16), byte(len(k)>>8), byte(len(k))
+		lenb[4], lenb[5], lenb[6], lenb[7] = byte(len(v)>>24), byte(len(v)>>16), byte(len(v)>>8), byte(len(v))
+		hh.Write(lenb[:])
+		hh.Write(k)
+		hh.Write(v)
+	}
+	var out [32]byte
+	copy(out[:], hh.Sum(nil))
+	return out
+}
+
+func (a digest) diff(b digest) []string {
+	var out []string
+	for n, x := range a {
+		if b[n] != x {
+			out = append(out, n)
 		}
-		md := d.(protoreflect.MessageDescriptor)
-		opts := md.Options().(*descriptorpb.MessageOptions)
-		var signers []string
-		if opts != nil && proto.HasExtension(opts, msgv1.E_Signer) {
-			signers = proto.GetExtension(opts, msgv1.E_Signer).([]string)
+	}
+	sort.Strings(out)
+	return out
+}
+
+// ---------- harness ----------
+
+type harness struct {
+	c        *lib.Chain
+	rep      *lib.Report
+	r        *lib.Rand
+	kvNames  []string
+	tNames   []string
+	base     digest
+	baseDump map[string][]string
+	direct   *capture
+	items    []string // Cases_C16.v
+	urlIdx   map[string]bool
+}
+
+type replayT struct {
+	Seed      int64  `json:"seed"`
+	URL       string `json:"type_url"`
+	Variant   string `json:"payload_variant"`
+	Level     string `json:"delivery"`
+	Class     string `json:"authority_class"`
+	Authority string `json:"authority"`
+	Msg       string `json:"message"`
+	Err       string `json:"error"`
+	Changed   []string `json:"stores_changed"`
+	Diff      []string `json:"diff"`
+}
+
+func (h *harness) routerDeliver(ctx sdk.Context, msg sdk.Msg) (err error) {
+	defer func() {
+		if r := recover(); r != nil {
+			err = fmt.Errorf("PANIC: %v", r)
 		}
-		hasAuth := md.Fields().ByName("authority") != nil
-		fmt.Printf("%-70s handler=%v signers=%v hasAuthorityField=%v\n", u, h != nil, signers, hasAuth)
+	}()
+	hd := h.c.App.MsgServiceRouter().Handler(msg)
+	if hd == nil {
+		return fmt.Errorf("no route")
+	}
+	_, err = hd(ctx, msg)
+	return err
+}
+
+func (h *harness) directDeliver(ctx sdk.Context, url string, msg sdk.Msg) (err error) {
+	defer func() {
+		if r := recover(); r != nil {
+			err = fmt.Errorf("PANIC: %v", r)
+		}
+	}()
+	m := h.direct.methods[url]
+	_, err = m.handler(m.srv, ctx, func(i interface{}) error {
+		reflect.ValueOf(i).Elem().Set(reflect.ValueOf(msg).Elem())
+		return nil
+	}, nil)
+	return err
+}
+
+func clone(m sdk.Msg) sdk.Msg {
+	n := reflect.New(reflect.TypeOf(m).Elem())
+	n.Elem().Set(reflect.ValueOf(m).Elem())
+	return n.Interface().(sdk.Msg)
+}
+
+func validateBasic(m sdk.Msg) bool {
+	if v, ok := m.(sdk.HasValidateBasic); ok {
+		return v.ValidateBasic() == nil
+	}
+	return true
+}
+
+func errClass(err error) string {
+	if err == nil {
+		return "ok"
+	}
+	s := err.Error()
+	switch {
+	case strings.HasPrefix(s, "PANIC"):
+		return "panic"
+	case strings.Contains(s, "expected gov account as only signer"), strings.Contains(s, "invalid authority"), strings.Contains(s, "unauthorized"), strings.Contains(s, "invalid signer"):
+		return "invalid-authority"
+	}
+	return "other-error"
+}
+
+func main() {
+	if len(os.Args) > 1 && os.Args[1] == "gen" {
+		c := lib.NewChain(1, 1, nil)
+		rows, routable, err := authMsgs(c)
+		if err != nil || len(rows) == 0 {
+			fmt.Fprintf(os.Stderr, "c16 gen: cannot build table (1): %v (%d rows)\n", err, len(rows))
+			os.Exit(1)
+		}
+		must(writeTable(rows, routable))
+		fmt.Printf("c16 gen: %d authority-carrying message types among %d routable messages\n", len(rows), routable)
+		return
+	}
+
+	seed := lib.Seed()
+	r := lib.NewRand(seed)
+	thorough := lib.Tier() == "thorough" || os.Getenv("VERIF_MODE") == "search"
+	rep := lib.NewReport("C16")
+	rep.Rule = "one case = (registered authority-carrying message type [x bridge chain] , payload accepted with the real governance authority, authority variant, delivery level A router/T router-in-tx-cache/B direct server method); monitor: non-governance authority => error AND all KV+transient stores byte-identical (observed on the handler's own context). non-trivial = the same payload with the governance authority was accepted and changed some store (so a missing guard would be visible); distinct by (type, chain/payload variant, authority class, level)"
+
+	c := lib.NewChain(seed, 3, nil)
+	h := &harness{c: c, rep: rep, r: r, urlIdx: map[string]bool{}}
+	sc := setupScenario(c, r)
+	for n := range c.App.GetKVStoreKey() {
+		h.kvNames = append(h.kvNames, n)
+	}
+	sort.Strings(h.kvNames)
+	for n := range c.App.GetTransientStoreKey() {
+		h.tNames = append(h.tNames, n)
+	}
+	sort.Strings(h.tNames)
+	h.direct = fxServers(c)
+	h.base = h.digest(c.Ctx)
+
+	rows, routable, err := authMsgs(c)
+	must(err)
+	rep.Count(fmt.Sprintf("routable-msgs=%d", routable))
+	rep.Count(fmt.Sprintf("authority-msgs=%d", len(rows)))
+
+	// every keeper that exposes its authority must hold the governance address
+	h.checkKeeperAuthorities()
+
+	vs := variants(c, r)
+	chains := lib.ChainModules
+	rounds := 1
+	if thorough {
+		rounds = 3
+	}
+	for round := 0; round < rounds; round++ {
+		if round > 0 {
+			vs = variants(c, r)
+		}
+		for _, row := range rows {
+			pls := sc.build(row, r, chains)
+			if pls == nil {
+				rep.Notes = append(rep.Notes, "no structure-aware payload builder for "+row.URL+" (new message type?) — exercised with the zero payload only; add a builder in harness/c16/build.go")
+				rep.Count("no-builder")
+			}
+			pls = append(pls, payload{Msg: zeroPayload(row), Variant: "zero-payload", NoPositive: "all fields but the authority are zero"})
+			if row.PerChain {
+				z := zeroPayload(row)
+				reflect.ValueOf(z).Elem().FieldByName("ChainName").SetString(chains[r.Pick(len(chains))])
+				pls = append(pls, payload{Msg: z, Variant: "zero-payload+chain", NoPositive: "all fields but authority and chain are zero"})
+			}
+			for _, pl := range pls {
+				h.exercise(row, pl, vs)
+			}
+		}
+	}
+
+	casItems := h.casCases(sc, thorough)
+
+	lib.WriteCases("Cases_C16.v", []string{"model.M_AuthorityTypes", "gen.Gen_Authority", "model.M_Authority", "model.M_AuthorityCorr"},
+		"auth_case", h.items, "auth_mismatch "+runes(lib.GovAuthority()))
+	lib.WriteCases("Cases_C16cas.v", []string{"model.M_Authority", "model.M_AuthorityCorr"}, "cas_case", casItems, "cas_mismatch")
+	rep.Write()
+}
+
+// exercise one payload with the positive control and every authority variant
+func (h *harness) exercise(row authMsg, pl payload, vs []variant) {
+	rep, c := h.rep, h.c
+	gov := lib.GovAuthority()
+	_, hasDirect := h.direct.methods[row.URL]
+	if row.InFx && !hasDirect {
+		rep.Fail(lib.Failure{Kind: "harness", What: "fx-core message " + row.URL + " is routable but harness/c16 does not know its message server (add it to fxServers)", Sig: "C16:harness:noserver:" + row.URL})
+	}
+
+	// positive control: the governance authority is accepted and has an effect
+	posOK, posEffect := false, false
+	{
+		m := clone(pl.Msg)
+		setSigner(m, row.GoField, gov)
+		ctx, _ := c.Ctx.CacheContext()
+		err := h.routerDeliver(ctx, m)
+		posOK = err == nil
+		if posOK {
+			posEffect = len(h.base.diff(h.digest(ctx))) > 0
+		}
+		rep.Count("positive:" + errClass(err))
+		if !posOK && pl.NoPositive == "" {
+			rep.Fail(lib.Failure{Kind: "harness", What: fmt.Sprintf("positive control failed: %s (%s) with the governance authority: %v", row.URL, pl.Variant, err),
+				Sig: "C16:harness:positive:" + row.URL, Replay: map[string]string{"msg": fmt.Sprintf("%v", m)}})
+		}
+		if hasDirect && posOK {
+			ctx2, _ := c.Ctx.CacheContext()
+			if err := h.directDeliver(ctx2, row.URL, m); err != nil {
+				rep.Fail(lib.Failure{Kind: "harness", What: fmt.Sprintf("direct server call of %s fails where the router succeeds: %v", row.URL, err), Sig: "C16:harness:direct:" + row.URL})
+			}
+		}
+	}
+
+	levels := []string{"A", "T"}
+	if hasDirect {
+		levels = append(levels, "B")
+	}
+	for _, v := range vs {
+		for _, lv := range levels {
+			m := clone(pl.Msg)
+			setSigner(m, row.GoField, v.Value)
+			ctx, _ := c.Ctx.CacheContext()
+			var err error
+			switch lv {
+			case "A":
+				err = h.routerDeliver(ctx, m)
+			case "T":
+				txctx, write := ctx.CacheContext()
+				err = h.routerDeliver(txctx, m)
+				if err == nil {
+					write()
+				}
+			case "B":
+				err = h.directDeliver(ctx, row.URL, m)
+			}
+			after := h.digest(ctx)
+			changed := h.base.diff(after)
+			key := fmt.Sprintf("%s|%s|%s|%s", row.URL, pl.Variant, v.Class, lv)
+			rep.Case(key, posOK && posEffect)
+			rep.Count("level=" + lv)
+			rep.Count("outcome:" + errClass(err))
+
+			isGov := isGovSpelling(v.Value)
+			foldEq := strings.EqualFold(v.Value, gov)
+			bad := ""
+			switch {
+			case isGov:
+				// a valid spelling of the governance account: acceptance and rejection are both fine
+				rep.Count("gov-spelling:" + v.Class + ":" + errClass(err))
+			case lv == "B" && foldEq:
+				// direct server call (no ValidateBasic): a string equal to the governance address up to
+				// Unicode case folding that is NOT a decodable address. Unreachable through the router (level A
+				// rejects it); recorded, not alarmed — see docs/C16.md "reading".
+				rep.Count("direct-fold-lookalike:" + v.Class + ":" + errClass(err))
+				if err == nil {
+					h.note("observation (not a violation under the documented reading): " + row.URL + " called directly on its message server accepts the non-address string class " + v.Class + " that equals the governance address only under Unicode case folding; the router's ValidateBasic rejects it before the handler")
+				}
+			case err == nil:
+				bad = "accepted"
+			case len(changed) > 0:
+				bad = "rejected but stores changed"
+			}
+			if bad != "" {
+				var diff []string
+				if h.baseDump == nil {
+					h.baseDump = c.DumpAll(c.Ctx)
+				}
+				diff = lib.DiffDumps(h.baseDump, c.DumpAll(ctx))
+				es := ""
+				if err != nil {
+					es = err.Error()
+				}
+				rep.Fail(lib.Failure{Kind: "monitor",
+					What: fmt.Sprintf("%s (%s) with non-governance authority class %s delivered %s: %s (stores changed: %v)", row.URL, pl.Variant, v.Class, lv, bad, changed),
+					Sig:  "C16:authority:" + row.URL + ":" + bad,
+					Replay: replayT{Seed: h.c.Seed, URL: row.URL, Variant: pl.Variant, Level: lv, Class: v.Class, Authority: v.Value,
+						Msg: fmt.Sprintf("%v", m), Err: es, Changed: changed, Diff: diff}})
+			}
+			if len(rep.Samples) < 5 && v.Class == "gov-mixed-case" {
+				rep.Sample(map[string]interface{}{"type": row.URL, "variant": pl.Variant, "authority_class": v.Class, "authority": v.Value, "level": lv, "outcome": errClass(err), "stores_changed": changed})
+			}
+
+			// correspondence with the model's guard (fx-core rows, payloads the gov authority gets accepted)
+			if row.InFx && posOK && lv != "T" {
+				level := "LvRouter"
+				if lv == "B" {
+					level = "LvDirect"
+				}
+				h.items = append(h.items, fmt.Sprintf("mk_auth_case %s %s %s %s %s", coqStr(row.URL), level, lib.Bool(validateBasic(m)), runes(v.Value), lib.Bool(err == nil)))
+			}
+		}
+	}
+}
+
+var noted = map[string]bool{}
+
+func (h *harness) note(s string) {
+	if !noted[s] && len(noted) < 12 {
+		noted[s] = true
+		h.rep.Notes = append(h.rep.Notes, s)
+	}
+}
+
+// checkKeeperAuthorities: app/keepers/keepers.go hands `authAddr` to the keepers; every fx-core keeper
+// that exposes it must hold exactly the governance module address.
+func (h *harness) checkKeeperAuthorities() {
+	gov := lib.GovAuthority()
+	got := map[string]string{
+		"erc20": h.c.App.Erc20Keeper.GetAuthority(),
+		"evm":   h.c.App.EvmKeeper.GetAuthority().String(),
+	}
+	for _, ch := range lib.ChainModules {
+		got["crosschain/"+ch] = h.c.XKeeper(ch).GetAuthority()
+	}
+	for n, a := range got {
+		h.rep.Case("keeper-authority|"+n, true)
+		if a != gov {
+			h.rep.Fail(lib.Failure{Kind: "monitor", What: fmt.Sprintf("keeper %s holds authority %q, not the governance module address %q", n, a, gov),
+				Sig: "C16:keeper-authority:" + n, Replay: map[string]string{"keeper": n, "authority": a, "gov": gov}})
+		}
 	}
 }
